@@ -139,27 +139,33 @@ def vars_in(e):
     return [n[1] for n in all_nodes(e) if n[0] == 'var']
 
 
-def assignments(block, acc=None):
-    """variable -> list of expressions it is assigned from / updated with, anywhere in the block"""
+def assignments(block, acc=None, guards=()):
+    """variable -> list of expressions it is assigned from / updated with, anywhere in the block; the conditions
+    under which the assignment happens count as sources too (`flag = False; for ...: if v[x]: flag = True`)"""
     acc = {} if acc is None else acc
+
+    def put(x, e):
+        acc.setdefault(x, []).append(e)
+        for g in guards:
+            acc[x].append(g)
     for s in block:
         k = s[0]
         if k == 'assign':
-            acc.setdefault(s[1], []).append(s[2])
+            put(s[1], s[2])
         elif k == 'unpack':
             for x in s[1]:
-                acc.setdefault(x, []).append(s[2])
+                put(x, s[2])
         elif k == 'aug':
-            acc.setdefault(s[1], []).append(s[3])
+            put(s[1], s[3])
         elif k == 'append':
-            acc.setdefault(s[1], []).append(s[2])
+            put(s[1], s[2])
         elif k == 'ifS':
-            assignments(s[2], acc)
-            assignments(s[3], acc)
+            assignments(s[2], acc, tuple(guards) + (s[1],))
+            assignments(s[3], acc, tuple(guards) + (s[1],))
         elif k == 'forS':
             for x in s[1]:
-                acc.setdefault(x, []).append(s[2])
-            assignments(s[3], acc)
+                put(x, s[2])
+            assignments(s[3], acc, tuple(guards) + (s[2],))
     return acc
 
 
@@ -504,8 +510,8 @@ def polarity_compatible(gate, pols):
     want = gate['declares']
     if want in ('yes', 'no'):
         return any(p.rstrip('?') == want for p in pols) or (gate.get('via') is not None and 'cond' in pols)
-    # amount gates: the survey shows a comparison or a compound condition
-    return any(p[0] in '<>=!' or p == 'cond' for p in pols)
+    # amount gates: the survey shows a comparison, a truth test of the amount, or a compound condition
+    return any(p[0] in '<>=!' or p in ('cond', 'yes', 'yes?') for p in pols)
 
 
 def main(argv):
